@@ -87,6 +87,8 @@ pub enum Ctx {
     Init(T),
     /// case label of a switch over the given type
     Label(T),
+    /// right operand (the count) of << >>
+    ShiftCount,
     Other,
 }
 
@@ -126,7 +128,7 @@ impl Walker<'_, '_> {
                 let (cl, cr) = match op {
                     BinOp::And | BinOp::Or => (Ctx::Cond, Ctx::Cond),
                     BinOp::Eq | BinOp::Ne | BinOp::StrictEq | BinOp::StrictNe | BinOp::Lt | BinOp::Le | BinOp::Gt | BinOp::Ge => (Ctx::Compared(rt), Ctx::Compared(lt)),
-                    BinOp::Shl | BinOp::Shr => (Ctx::Operand(*op, rt), Ctx::Other),
+                    BinOp::Shl | BinOp::Shr => (Ctx::Operand(*op, rt), Ctx::ShiftCount),
                     _ => (Ctx::Operand(*op, rt), Ctx::Operand(*op, lt)),
                 };
                 self.expr(l, cl, depth + 1);
@@ -328,7 +330,7 @@ fn is_numeric(t: &T) -> bool {
 /// Edit kinds of appendix B that work by replacing one expression node.
 pub const EXPR_EDITS: &[&str] = &[
     "E1-numeric-mix", "E2-string-with-number", "E3-non-bool-condition", "E4-operator-on-unsupported-type", "E5-unsupported-operator", "E7-assign-other-type",
-    "E8-call-argument-type", "E11-invalid-cast", "E12-bad-subscript-or-member", "E13-result-type", "E14-no-common-type",
+    "E8-call-argument-type", "E11-invalid-cast", "E12-bad-subscript-or-member", "E13-result-type", "E14-no-common-type", "E15-shift-count-type",
 ];
 
 /// Tries to apply `kind` at `site`; returns the replacement when the site qualifies.
@@ -357,6 +359,14 @@ pub fn replacement(ch: &mut Chooser, kind: &str, node: &E, node_ty: &T, ctx: &Ct
             };
             Some(w(ch, new_t))
         }
+        // the count of a shift must be an integer (int, uint or an integer literal)
+        "E15-shift-count-type" => match ctx {
+            Ctx::ShiftCount => {
+                let t = ch.pick(&[T::Double, T::Str, T::Bool]).clone();
+                Some(w(ch, t))
+            }
+            _ => None,
+        },
         "E2-string-with-number" => match ctx {
             Ctx::Operand(BinOp::Add, Sib { ty: T::Str, .. }) if *node_ty == T::Str => { let t = if ch.chance(1, 2) { T::Int } else { T::Double }; Some(w(ch, t)) },
             Ctx::Operand(BinOp::Add | BinOp::Sub | BinOp::Mul, s) if is_numeric(&s.ty) && is_numeric(node_ty) => Some(w(ch, T::Str)),
